@@ -5,7 +5,25 @@ COMMON_TB = [
     "git binary, go-git, encoding/json, sshsig: exercised by the correspondence run, not verified",
 ]
 
+WORLD_RULE = ("random histories on a real repository: policy states (root key, rule file with Key/Person principals, "
+              "thresholds 1..2, optional delegation level, file rules, global rules), pushes signed by authorized / other / "
+              "outsider / no key (new commits, force pushes, tree-same fixes), authorizations, skip annotations covering 1-2 "
+              "entries, propagation entries, policy rotations; each world is verified with the real PolicyVerifier in full / "
+              "latest-only / from-entry mode for every reference and compared with the Lean model; the declarative spec is "
+              "evaluated on the implementation's verdicts. non-trivial = some query accepted or rejected for a policy reason; "
+              "distinct by hash of the abstract world.")
+
 PROPS = {
+    "C01": {
+        "test": "TestC01",
+        "lean_modules": ["Gittuf.Props.C01"],
+        "n": {"quick": 24, "thorough": 600},
+        "min_per_shard": 6,
+        "rule": WORLD_RULE,
+        "trusted_base": COMMON_TB,
+        "assumptions": ["principals of one policy share no keys (results are then independent of Go map order)",
+                        "tags, controller repositories, GPG/Sigstore keys are not generated"],
+    },
     "C05": {
         "test": "TestC05",
         "lean_modules": ["Gittuf.Props.C05"],
